@@ -208,29 +208,13 @@ class Ctx:
         self.s.add(z3bool(b))
 
     def timed_check(self, solver, timeout_ms):
-        """solver.check() with z3's own timeout plus a watchdog that interrupts the context shortly after the deadline: z3 does not
-        look at its timeout inside some quantifier-instantiation and nonlinear procedures, and a check that never returns would turn
-        into a task that runs until its wall-clock budget.  An interrupted check is 'unknown'."""
-        import threading
+        """solver.check() under z3's own timeout; a z3 exception is 'unknown'.  (A watchdog thread that interrupts the context after
+        the deadline was tried and dropped: threads and the forked workers / forked solver calls do not mix - workers died or hung.)"""
         solver.set('timeout', int(timeout_ms))
-        fired = []
-
-        def stop():
-            fired.append(1)
-            try:
-                solver.ctx.interrupt()
-            except Exception:
-                pass
-        w = threading.Timer(timeout_ms / 1000.0 * 1.2 + 2.0, stop)
-        w.daemon = True
-        w.start()
         try:
-            r = solver.check()
+            return solver.check()
         except z3.Z3Exception:
-            r = z3.unknown
-        finally:
-            w.cancel()
-        return r
+            return z3.unknown
 
     def forked_check(self, solver, timeout_ms, want_model=False):
         """run solver.check() in a forked child that is killed at the deadline: z3's own timeout is not honoured inside
@@ -276,12 +260,95 @@ class Ctx:
         r = {'sat': z3.sat, 'unsat': z3.unsat}.get(res[0], z3.unknown)
         return r, res[1]
 
+    def raced_check(self, solver, timeout_ms, want_model=False, seeds=None):
+        """the same query on fresh solvers with different random seeds, each in a forked child, all started together; the first
+        definite answer wins and the others are killed at once (all of them at the deadline).  z3's verdict time on nonlinear and
+        div/mod queries depends on the seed by orders of magnitude (0.5 s with most seeds, never with one), and inside the nonlinear
+        procedures it does not look at its own timeout - a single in-process attempt can hang a task for good."""
+        import pickle
+        import select
+        import signal
+        seeds = seeds or [self.cfg.seed, self.cfg.seed + 7, self.cfg.seed + 101, self.cfg.seed + 1009]
+        assertions = list(solver.assertions())
+        kids = {}
+        # the portfolio: the solver handed in as it is (an incremental solver keeps what it learnt on this path and does no
+        # preprocessing - often the fastest on these queries), the same with another seed, and fresh solvers with further seeds
+        plan = [('as-is', seeds[0])] + [('as-is', sd) for sd in seeds[1:2]] + [('fresh', sd) for sd in seeds[2:]] + [('fresh', seeds[0])]
+        for how, sd in plan:
+            rfd, wfd = os.pipe()
+            pid = os.fork()
+            if pid == 0:
+                try:
+                    os.close(rfd)
+                    if how == 'as-is':
+                        fs = solver
+                        if sd != seeds[0]:
+                            fs.set('random_seed', int(sd))
+                    else:
+                        fs = z3.Solver()
+                        fs.set('random_seed', int(sd))
+                        for a_ in assertions:
+                            fs.add(a_)
+                    fs.set('timeout', int(timeout_ms))
+                    r = fs.check()
+                    md = None
+                    if r == z3.sat and want_model:
+                        md = _plain(self.model_dict(fs.model()))
+                    os.write(wfd, pickle.dumps((str(r), md)))
+                except BaseException:
+                    pass
+                finally:
+                    os._exit(0)
+            os.close(wfd)
+            kids[rfd] = pid
+        res = ('unknown', None)
+        deadline = time.time() + timeout_ms / 1000.0 + 2.0
+        open_fds = set(kids)
+        try:
+            while open_fds and res[0] == 'unknown':
+                left = deadline - time.time()
+                if left <= 0:
+                    break
+                ready, _, _ = select.select(list(open_fds), [], [], left)
+                for rfd in ready:
+                    buf = b''
+                    while True:
+                        chunk = os.read(rfd, 1 << 16)
+                        if not chunk:
+                            break
+                        buf += chunk
+                    open_fds.discard(rfd)
+                    if buf:
+                        try:
+                            got = pickle.loads(buf)
+                        except Exception:
+                            continue
+                        if got[0] in ('sat', 'unsat'):
+                            res = got
+                            break
+        finally:
+            for rfd, pid in kids.items():
+                try:
+                    os.close(rfd)
+                except OSError:
+                    pass
+                try:
+                    os.kill(pid, signal.SIGKILL)
+                except ProcessLookupError:
+                    pass
+                try:
+                    os.waitpid(pid, 0)
+                except ChildProcessError:
+                    pass
+        r = {'sat': z3.sat, 'unsat': z3.unsat}.get(res[0], z3.unknown)
+        return r, res[1]
+
     def feasible(self, t):
         self.s.push()
         self.s.add(t)
         t0 = time.time()
         if self.cfg.extra.get('fork_solver'):
-            r, _ = self.forked_check(self.s, self.cfg.branch_timeout_ms)
+            r, _ = self.raced_check(self.s, self.cfg.branch_timeout_ms, seeds=[self.cfg.seed, self.cfg.seed + 7, self.cfg.seed + 101])
         else:
             r = self.timed_check(self.s, self.cfg.branch_timeout_ms)
         self.solver_ms += (time.time() - t0) * 1000
@@ -344,7 +411,7 @@ class Ctx:
             t0 = time.time()
             fmodel = None
             if self.cfg.extra.get('fork_solver'):
-                r, fmodel = self.forked_check(self.s, self.cfg.prove_timeout_ms, want_model=True)
+                r, fmodel = self.raced_check(self.s, self.cfg.prove_timeout_ms, want_model=True)
             else:
                 # a must-fail clause (vacuity guard) needs one path that refutes it; a path whose quantified context the solver
                 # cannot build a model for is left 'unknown' after a short budget
@@ -380,11 +447,7 @@ class Ctx:
             r, model = self.forked_check(fs, min(self.cfg.prove_timeout_ms, 15000), want_model=True)
             backend = 'z3-forked'
         elif forked:
-            fs = z3.Solver()
-            fs.set('random_seed', self.cfg.seed)
-            for a_ in self.s.assertions():
-                fs.add(a_)
-            r, model = self.forked_check(fs, self.cfg.prove_timeout_ms, want_model=True)
+            r, model = self.raced_check(self.s, self.cfg.prove_timeout_ms, want_model=True)
             backend = 'z3-forked'
         else:
             r = self.timed_check(self.s, min(self.cfg.prove_timeout_ms, 5000))      # quick incremental attempt; fresh solvers get the full budget
